@@ -91,6 +91,22 @@ class Order:
         return False
 
 
+def row_axis(order, t):
+    """Does the outermost axis of t follow the rows of the batch?  A list with one entry per element of an order-free
+    domain ([f(X, j) for j in range(d)], [a, b]) holds row-ordered things but is itself indexed by that domain."""
+    a = t.single_atom() if isinstance(t, R) else None
+    if a is not None and a[0] == "comp":
+        return any(order.ordered(it) and row_axis(order, it) for it in a[3])
+    if a is not None and a[0] in ("list", "tuple"):
+        return False
+    if a is not None and a[0] == "iter":
+        # an element of such a list is whatever the list holds
+        b = a[1].single_atom()
+        if b is not None and b[0] == "comp" and not row_axis(order, a[1]):
+            return order.ordered(b[2])
+    return order.ordered(t)
+
+
 def full_slice(t):
     a = t.single_atom()
     return a is not None and a[0] == "slice" and all(x == T.NONE for x in a[1:])
@@ -131,7 +147,7 @@ def scan(ctx, site, tr, order, cell_label="", allowed_extra=()):
             for a in T.walk(t):
                 kind = None
                 what = None
-                if a[0] == "sub" and order.ordered(a[1]) and row_positional(a[2]):
+                if a[0] == "sub" and order.ordered(a[1]) and row_axis(order, a[1]) and row_positional(a[2]):
                     base_a = a[1].single_atom()
                     # subscripting an invariant-length tuple such as X.shape is not positional on rows
                     kind, what = "positional subscript", "%s[%s]" % (q.short(a[1], 40), q.short(a[2], 40))
@@ -139,7 +155,7 @@ def scan(ctx, site, tr, order, cell_label="", allowed_extra=()):
                     kind, what = "positional call", a[1]
                 elif a[0] == "mcall" and a[2] in L.POSITIONAL_METHODS and order.ordered(a[1]):
                     kind, what = "positional method", "." + a[2]
-                elif a[0] == "iter" and order.ordered(a[1]):
+                elif a[0] == "iter" and order.ordered(a[1]) and row_axis(order, a[1]):
                     kind, what = "iteration over rows", q.short(a[1], 40)
                 if kind is None:
                     continue
